@@ -222,8 +222,8 @@ def type_at(prog, t, d, path, dyn, mopts=None, result=None) -> str:
                 # root union: the class of the result tells which object alternative was served
                 named = [a for a in alts if M.strip(a, prog)["k"] == "cls" and prog["classes"][M.strip(a, prog)["i"]]["name"] == type(result).__name__
                          and prog["classes"][M.strip(a, prog)["i"]]["flavor"] != "typeddict"]
-                if len(named) == 1:
-                    alts = named
+                if named and len({M.strip(a, prog)["i"] for a in named}) == 1:  # (the union may repeat the class)
+                    alts = named[:1]
             if alts and all(M.strip(a, prog)["k"] == "any" for a in alts):
                 return "any"
             if len(alts) != 1:
